@@ -8,7 +8,7 @@ tokens) and rustc's diagnostics per case against Level 1, and compares the outco
 import json
 import os
 
-from lib import vf, items
+from lib import vf, items, expand
 
 PRELUDE = """
 pub struct Conc;
@@ -103,7 +103,8 @@ def main():
         crate.add_case(c["case"], render(c))
     dump = os.path.join(chk.work, "dump")
     dropped, first_dump, iters = crate.build(mode="check", dump=dump, max_iter=20)
-    by_case, _ = vf.records_by_case(chk, first_dump)
+    by_case, allrecs = vf.records_by_case(chk, first_dump)
+    expand.conformance(chk, allrecs, "misuse")        # well- and ill-formed invocations against the pipeline model (spec/Expand.tla)
     events = []
     for c in cases:
         cid = c["case"]
